@@ -2,7 +2,8 @@
    [l], [o]: any two replicas of any well-formed history; [size >= 0]. *)
 From Coq Require Import List ZArith Bool Lia Permutation Sorted.
 From IpfsLog Require Import Model.System Model.CheckLog Proofs.OmapProofs Proofs.SortProofs Proofs.Inv Proofs.DiffProofs
-     Proofs.JoinProofs Proofs.SysProofs Proofs.TravProofs Proofs.TimeProofs Proofs.ValuesProofs Proofs.BoundedProofs.
+     Proofs.JoinProofs Proofs.SysProofs Proofs.TravProofs Proofs.TimeProofs Proofs.ValuesProofs Proofs.BoundedProofs
+     Proofs.PInv Proofs.PJoin Proofs.PSys.
 Import ListNotations.
 Open Scope Z_scope.
 
@@ -88,6 +89,61 @@ Proof.
   exact (bounded_join_next _ l o UO Il Io Hid ni D OK TO OT size Hs).
 Qed.
 
+(* ---- "for all pairs of logs": also logs that earlier bounded merges have truncated, and logs that
+   merged from such logs.  [pwf] only asks for hash-consistent appends; joins may carry any bound.
+   Along every such history every replica is a log in the full sense ([pinv]): in particular, after
+   ANY merge with ANY bound the heads are exactly the unreferenced entries (non-empty when the log is),
+   the reverse next index is exact, every entry is at most as new as the clock - and no merge panics. *)
+Lemma values_total_raw l : NoDup (okeys (l_entries l)) -> well_keyed (l_entries l) -> values l <> None.
+Proof.
+  intros ND WK. unfold values, traverse.
+  set (stack0 := sort_desc (l_sort l) (oslice (l_heads l))).
+  pose proof (trav_fuel_ok (l_entries l) (l_sort l) ND WK (-1) None
+                (trav_fuel (l_entries l) stack0) stack0 [] [] 0) as F.
+  destruct (trav _ _ _ _ _ _ _ _ _); [discriminate|]. exfalso. apply F; [|reflexivity].
+  unfold trav_fuel. rewrite unseen_nil. lia.
+Qed.
+
+Theorem C16_every_log_of_every_history_is_a_log ops r l :
+  pwf ops -> nth_error (s_logs (run ops)) r = Some l ->
+  (forall k e, In (k, e) (l_heads l) <-> In (k, e) (l_entries l) /\ ~ named_in (ents l) k) /\
+  (forall n, In n (okeys (l_next l)) <-> named_in (ents l) n) /\
+  (l_entries l <> [] -> l_heads l <> []) /\
+  (forall e, In e (ents l) -> e_time e <= l_time l) /\
+  NoDup (okeys (l_entries l)) /\ NoDup (okeys (l_heads l)).
+Proof.
+  intros W L. destruct (psinv_run ops W) as [UO IL]. pose proof (IL r l L) as I.
+  split; [exact (pi_heads _ _ I)|]. split; [exact (pi_next _ _ I)|]. split; [|split; [exact (pi_time _ _ I)|split; [exact (pi_nodup _ _ I)|exact (pi_heads_nodup _ _ I)]]].
+  intros Hne Hh.
+  assert (exists k v, In (k, v) (l_entries l)) as [k [v Hin]].
+  { destruct (l_entries l) as [|[k v] m]; [congruence|]. exists k, v. now left. }
+  destruct (climb (s_univ (run ops)) (l_entries l) (l_heads l) UO (pi_in_U _ _ I) (pi_heads _ _ I) k v Hin) as [kh [hd [Hhd _]]].
+  rewrite Hh in Hhd. destruct Hhd.
+Qed.
+
+Theorem C16_any_merge_any_bound_any_history ops r src l o size :
+  pwf ops -> nth_error (s_logs (run ops)) r = Some l -> nth_error (s_logs (run ops)) src = Some o ->
+  snd (join l o (Nat.eqb r src) size) <> Panic /\
+  pwf (ops ++ [OJoin r src size]).
+Proof.
+  intros W L O. destruct (psinv_run ops W) as [UO IL]. pose proof (IL r l L) as Il. pose proof (IL src o O) as Io.
+  split.
+  - unfold join, join_reads. destruct (Nat.eqb r src); [discriminate|].
+    destruct (N.eqb_spec (l_id l) (l_id o)) as [Hid|Hid]; cbn [negb]; [|discriminate].
+    destruct (difference (l_entries o) (oslice (l_heads o)) l) as [ni|] eqn:D;
+      [|exfalso; exact (difference_total _ _ _ D)].
+    destruct (forallb (entry_ok l) (oslice ni)); cbn [negb]; [|discriminate].
+    destruct (size <? 0); [discriminate|].
+    match goal with |- context [values ?x] => assert (V : values x <> None) end.
+    { apply values_total_raw; cbn [l_entries].
+      - exact (proj1 (pj_ents_spec _ l o Il Io Hid ni D)).
+      - intros k v H. now apply (pj_in_U _ l o Il Io Hid ni D) in H. }
+    match goal with |- context [values ?x] => destruct (values x) end; [discriminate|congruence].
+  - unfold pwf in *. clear - W. revert W. generalize empty_sys. induction ops as [|x xs IH]; intros s W; cbn [app pwf_from] in *.
+    + split; [exact I|exact I].
+    + destruct W as [W1 W2]. split; [exact W1|apply IH; exact W2].
+Qed.
+
 From IpfsLog Require Import Model.ExampleHist Proofs.WfBool.
 Example C16_nonvacuous :
   (* replica 0 (two entries) merges replica 2 (three heads) with bound 3: keeps the 3 newest of the 4 *)
@@ -103,4 +159,6 @@ Qed.
 Print Assumptions C16_join_never_panics.
 Print Assumptions C16_bounded_join_keeps_newest.
 Print Assumptions C16_bounded_join_forgets_dropped_entries.
+Print Assumptions C16_every_log_of_every_history_is_a_log.
+Print Assumptions C16_any_merge_any_bound_any_history.
 Print Assumptions C16_nonvacuous.
